@@ -204,6 +204,7 @@ def run(ctx):
 
     # a cell text is compared as a whole: `x in "<text>"` is a substring test
     n_in = 0
+    rds62 = {}
     for f in prog.functions.values():
         if not f.module.name.startswith("hed.models."):
             continue
@@ -213,7 +214,13 @@ def run(ctx):
                 r = x.comparators[0]
                 val = r.value if isinstance(r, ast.Constant) else (
                     prog.try_const(r, f.module, f.cls, f, default=None) if isinstance(r, (ast.Name, ast.Attribute)) else None)
-                if isinstance(val, str) and len(val) > 1:
+                # a set of delimiter characters asked about one character is a character-class test, not a cell comparison
+                one_char = isinstance(x.left, ast.Subscript) and not isinstance(x.left.slice, ast.Slice)
+                if isinstance(x.left, ast.Name):
+                    rd_ = rds62[f] if f in rds62 else rds62.setdefault(f, _RD6(f))
+                    defs_ = rd_.at(x, x.left.id) or []
+                    one_char = bool(defs_) and all(d.kind == "for" for d in defs_)
+                if isinstance(val, str) and len(val) > 1 and not (one_char and not any(ch.isalnum() for ch in val)):
                     ctx.violation("R6.2", f.qualname, x, loc(f, x),
                                   "`%s` tests membership in the *string* %r, i.e. whether the cell text occurs inside it (a one-element "
                                   "tuple needs a trailing comma): cells `n`, `a`, `/`, `n/` are treated as missing as well"
